@@ -64,17 +64,14 @@ Proof. exact selecting_sublist. Qed.
 Print Assumptions C17_selecting_sublist.
 
 (* ---------------------------------------------------------------------------------------------
-   Slicing: exactly the shapes with a <= start and end < b, None = unbounded on that side.
-   PARTIAL: proved for every non-empty track.  The full clause (every track a chain of
-   operations can reach, including the empty one: [slice t a b = Ok (filter ... t)] without
-   [t <> []]) is false of the code: an omitted bound on an empty Track raises
-   (C17_slice_empty, C17_slice_open_empty_refuted). *)
-Theorem C17_slice_spec_partial : forall t a b,
-  StronglySorted (fun x y => st x <= st y) t -> t <> [] ->
+   Slicing: exactly the shapes with a <= start and end < b, None = unbounded on that side, for
+   every chronological track including the empty one (D30 repaired); never raises. *)
+Theorem C17_slice_spec : forall t a b,
+  StronglySorted (fun x y => st x <= st y) t ->
   slice t a b = Ok (filter (fun x => match a with Some a' => a' <=? st x | None => true end &&
                                      match b with Some b' => en x <? b' | None => true end) t).
 Proof. exact slice_spec. Qed.
-Print Assumptions C17_slice_spec_partial.
+Print Assumptions C17_slice_spec.
 
 Theorem C17_slice_exact : forall t a b out,
   StronglySorted (fun x y => st x <= st y) t -> slice t a b = Ok out ->
@@ -85,23 +82,9 @@ Theorem C17_slice_exact : forall t a b out,
 Proof. exact slice_exact. Qed.
 Print Assumptions C17_slice_exact.
 
-(* the empty track: an omitted bound raises (self.geoshapes[0] / max() of nothing) *)
-Theorem C17_slice_empty : forall a b,
-  slice [] a b = match a, b with
-                 | None, _ => Err IndexError
-                 | Some _, None => Err ValueError
-                 | Some _, Some _ => Ok []
-                 end.
-Proof. exact slice_empty. Qed.
-Print Assumptions C17_slice_empty.
-
-(* a chain can reach the empty track (slice everything away) and an open-ended slice of it
-   raises instead of returning the empty track *)
-Theorem C17_slice_open_empty_refuted : exists dist merge raws ops t0 t,
-  mk_track raws = Ok t0 /\ raws <> [] /\ run dist merge t0 ops = Ok t /\
-  slice t None None <> Ok (filter (fun _ => true) t).
-Proof. exact slice_open_empty_refuted. Qed.
-Print Assumptions C17_slice_open_empty_refuted.
+Theorem C17_slice_total : forall t a b, exists out, slice t a b = Ok out.
+Proof. exact slice_total. Qed.
+Print Assumptions C17_slice_total.
 
 (* D18 (repaired): with the old default stop (end of the last-STARTING shape + 1 s) an
    open-ended slice drops a shape of the track *)
